@@ -20,6 +20,8 @@ impl<T: Same> Same for Vec<T> { fn same(&self, o: &Self) -> bool { self.len() ==
 impl<A: Same, B: Same> Same for (A, B) { fn same(&self, o: &Self) -> bool { self.0.same(&o.0) && self.1.same(&o.1) } }
 impl<A: Same, B: Same, C: Same> Same for (A, B, C) { fn same(&self, o: &Self) -> bool { self.0.same(&o.0) && self.1.same(&o.1) && self.2.same(&o.2) } }
 impl<V: Same> Same for HashMap<String, V> { fn same(&self, o: &Self) -> bool { self.len() == o.len() && self.iter().all(|(k, v)| o.get(k).map(|w| v.same(w)).unwrap_or(false)) } }
+impl<V: Same> Same for HashMap<u64, V> { fn same(&self, o: &Self) -> bool { self.len() == o.len() && self.iter().all(|(k, v)| o.get(k).map(|w| v.same(w)).unwrap_or(false)) } }
+impl<V: Same> Same for BTreeMap<u64, V> { fn same(&self, o: &Self) -> bool { self.len() == o.len() && self.iter().all(|(k, v)| o.get(k).map(|w| v.same(w)).unwrap_or(false)) } }
 impl<V: Same> Same for BTreeMap<i64, V> { fn same(&self, o: &Self) -> bool { self.len() == o.len() && self.iter().all(|(k, v)| o.get(k).map(|w| v.same(w)).unwrap_or(false)) } }
 
 #[derive(Serialize, Deserialize, Debug, Clone, PartialEq)]
@@ -29,6 +31,57 @@ impl Same for Plain { fn same(&self, o: &Self) -> bool { self.id == o.id && self
 #[derive(Debug, Clone, PartialEq, ElixirStruct)]
 #[elixir_module = "MyApp.Item"]
 struct Item { count: i64, label: String, maybe: Option<i32>, list: Vec<u8> }
+/// variant and field names taken from the vocabulary an atom table may single out
+#[derive(Debug, Clone, Copy, PartialEq, Serialize, Deserialize)]
+enum Word {
+    #[serde(rename = "ok")] OkV,
+    #[serde(rename = "error")] ErrorV,
+    #[serde(rename = "true")] TrueV,
+    #[serde(rename = "false")] FalseV,
+    #[serde(rename = "nil")] NilV,
+    #[serde(rename = "undefined")] UndefinedV,
+    #[serde(rename = "normal")] NormalV,
+    #[serde(rename = "shutdown")] ShutdownV,
+    #[serde(rename = "infinity")] InfinityV,
+    #[serde(rename = "badarg")] BadargV,
+    #[serde(rename = "badarith")] BadarithV,
+    #[serde(rename = "badmatch")] BadmatchV,
+    #[serde(rename = "noproc")] NoprocV,
+    #[serde(rename = "timeout")] TimeoutV,
+    #[serde(rename = "noconnection")] NoconnectionV,
+    #[serde(rename = "killed")] KilledV,
+    #[serde(rename = "kill")] KillV,
+    #[serde(rename = "undef")] UndefV,
+    #[serde(rename = "badkey")] BadkeyV,
+    #[serde(rename = "badmap")] BadmapV,
+    #[serde(rename = "badfun")] BadfunV,
+    #[serde(rename = "badarity")] BadarityV,
+    #[serde(rename = "function_clause")] FunctionClauseV,
+    #[serde(rename = "case_clause")] CaseClauseV,
+    #[serde(rename = "if_clause")] IfClauseV,
+    #[serde(rename = "try_clause")] TryClauseV,
+    #[serde(rename = "nocatch")] NocatchV,
+    #[serde(rename = "system_limit")] SystemLimitV,
+    #[serde(rename = "not_found")] NotFoundV,
+    #[serde(rename = "closed")] ClosedV,
+    #[serde(rename = "eof")] EofV,
+    #[serde(rename = "exit")] ExitV,
+    #[serde(rename = "throw")] ThrowV,
+    #[serde(rename = "stop")] StopV,
+    #[serde(rename = "ignore")] IgnoreV,
+    #[serde(rename = "reply")] ReplyV,
+    #[serde(rename = "noreply")] NoreplyV,
+    #[serde(rename = "yes")] YesV,
+    #[serde(rename = "no")] NoV,
+    #[serde(rename = "none")] NoneV
+}
+impl Same for Word { fn same(&self, o: &Self) -> bool { self == o } }
+#[derive(Debug, Clone, PartialEq, Serialize, Deserialize)]
+struct Words { #[serde(rename = "ok")] f_ok: u8, #[serde(rename = "error")] f_error: u8, #[serde(rename = "true")] f_true: u8, #[serde(rename = "false")] f_false: u8, #[serde(rename = "nil")] f_nil: u8, #[serde(rename = "undefined")] f_undefined: u8, #[serde(rename = "normal")] f_normal: u8, #[serde(rename = "shutdown")] f_shutdown: u8, #[serde(rename = "infinity")] f_infinity: u8, #[serde(rename = "badarg")] f_badarg: u8, #[serde(rename = "badarith")] f_badarith: u8, #[serde(rename = "badmatch")] f_badmatch: u8, #[serde(rename = "noproc")] f_noproc: u8, #[serde(rename = "timeout")] f_timeout: u8, #[serde(rename = "noconnection")] f_noconnection: u8, #[serde(rename = "killed")] f_killed: u8, #[serde(rename = "kill")] f_kill: u8, #[serde(rename = "undef")] f_undef: u8, #[serde(rename = "badkey")] f_badkey: u8, #[serde(rename = "badmap")] f_badmap: u8 }
+impl Same for Words { fn same(&self, o: &Self) -> bool { self == o } }
+fn all_words() -> Vec<Word> { vec![Word::OkV, Word::ErrorV, Word::TrueV, Word::FalseV, Word::NilV, Word::UndefinedV, Word::NormalV, Word::ShutdownV, Word::InfinityV, Word::BadargV, Word::BadarithV, Word::BadmatchV, Word::NoprocV, Word::TimeoutV, Word::NoconnectionV, Word::KilledV, Word::KillV, Word::UndefV, Word::BadkeyV, Word::BadmapV, Word::BadfunV, Word::BadarityV, Word::FunctionClauseV, Word::CaseClauseV, Word::IfClauseV, Word::TryClauseV, Word::NocatchV, Word::SystemLimitV, Word::NotFoundV, Word::ClosedV, Word::EofV, Word::ExitV, Word::ThrowV, Word::StopV, Word::IgnoreV, Word::ReplyV, Word::NoreplyV, Word::YesV, Word::NoV, Word::NoneV] }
+fn words_struct() -> Words { Words { f_ok: 0, f_error: 1, f_true: 2, f_false: 3, f_nil: 4, f_undefined: 5, f_normal: 6, f_shutdown: 7, f_infinity: 8, f_badarg: 9, f_badarith: 10, f_badmatch: 11, f_noproc: 12, f_timeout: 13, f_noconnection: 14, f_killed: 15, f_kill: 16, f_undef: 17, f_badkey: 18, f_badmap: 19 } }
+
 /// field names that are Rust keywords (written as raw identifiers), derived and plain
 #[derive(Debug, Clone, PartialEq, ElixirStruct)]
 #[elixir_module = "MyApp.Event"]
@@ -243,6 +296,21 @@ fn main() {
     check(&rep, "Event{r#type, r#ref, r#fn} (ElixirStruct, keyword field names)", &Event { r#type: "click".into(), r#ref: 1 << 40, r#fn: Some(-1), plain: true });
     check(&rep, "Vec<Event>", &vec![Event { r#type: "".into(), r#ref: 0, r#fn: None, plain: false }]);
     check(&rep, "RawPlain{r#type, r#match}", &RawPlain { r#type: "t".into(), r#match: 255, other: vec![-128, 127] });
+    for w in all_words() { check(&rep, "Word (unit variants named like well-known atoms)", &w); if !matches!(w, Word::NilV | Word::UndefinedV) { check(&rep, "Option<Word>", &Some(w)); } /* Some(nil/undefined) is how None itself is written: not distinguishable */ check(&rep, "(Word,Word)", &(w, Word::OkV)); }
+    check(&rep, "Vec<Word> all", &all_words());
+    check(&rep, "Words{fields named like well-known atoms}", &words_struct());
+    check(&rep, "HashMap<String,Word>", &HashMap::from([("a".to_string(), Word::TimeoutV), ("b".to_string(), Word::NoconnectionV)]));
+    // unsigned keys above i64::MAX, several per map
+    check(&rep, "HashMap<u64,String> keys above i64::MAX", &HashMap::from([(u64::MAX, "max".to_string()), (u64::MAX - 1, "max-1".to_string()), (1u64 << 63, "2^63".to_string()), ((1u64 << 63) + 1, "2^63+1".to_string()), (7, "small".to_string())]));
+    check(&rep, "BTreeMap<u64,u64> keys above i64::MAX", &BTreeMap::from([(u64::MAX, 1u64), (u64::MAX - 1, 2), (1u64 << 63, 3), (i64::MAX as u64, 4)]));
+    check(&rep, "Vec<u64> above i64::MAX", &vec![u64::MAX, u64::MAX - 1, 1u64 << 63]);
+    // empty collections at the very end of the message
+    check(&rep, "Vec<Vec<i32>> [[],[]]", &vec![Vec::<i32>::new(), vec![]]);
+    check(&rep, "Vec<Vec<i32>> eight empties and [7]", &vec![vec![], vec![], vec![], vec![], vec![], vec![], vec![], vec![], vec![7i32]]);
+    check(&rep, "(i32, Vec<Vec<u8>>)", &(1i32, vec![Vec::<u8>::new(), vec![], vec![]]));
+    check(&rep, "Vec<String> of empties", &vec![String::new(), String::new(), String::new()]);
+    check(&rep, "Vec<()>", &vec![(), (), ()]);
+    check(&rep, "Vec<Option<i8>> of None", &vec![None::<i8>, None, None]);
     check(&rep, "Holder{items: None}", &Holder { items: None, names: Some(vec!["".into()]), map: None });
     check(&rep, "Shape::Rec{h: Some(0)}", &Shape::Rec { w: 0, h: Some(0) });
     for sh in [Shape::Unit, Shape::Other, Shape::New(-1), Shape::Tup(0, "".into()), Shape::Rec { w: 0, h: None }, Shape::Rec { w: u64::MAX, h: Some(i8::MIN) }] {
